@@ -1078,6 +1078,10 @@ func ruleDT1(c *Ctx) {
 				continue
 			}
 			label := "the unordered result of " + c.Name(f)
+			if d.orderFreeSearch(cs.Fn) {
+				c.ok(c.Name(cs.Fn), fmt.Sprintf("uses-unordered %s#%d", f.Name(), i+1), c.Pos(cs.Call.Pos()), "consumed by a pure yes/no search over a worklist: the answer is the same whatever order the elements are examined in")
+				continue
+			}
 			ts := d.taintedUses(cs.Fn, cv, label, 0)
 			c.check(len(ts.problems) == 0, c.Name(cs.Fn), fmt.Sprintf("uses-unordered %s#%d", f.Name(), i+1), c.Pos(cs.Call.Pos()),
 				"the map-ordered result is only counted, filtered, sorted or normalised", "map iteration order can reach an observable result: "+strings.Join(uniq(ts.problems), "; "))
@@ -1088,4 +1092,59 @@ func ruleDT1(c *Ctx) {
 		}
 	}
 	c.ok("<module>", "map-range-sites", "-", fmt.Sprintf("%d map range sites classified", len(sites)))
+}
+
+// orderFreeSearch: g answers a yes/no question by working through a collection (a worklist filled from map-ordered
+// sources): it has one bool result, every return hands back a constant, every return inside a loop hands back the same
+// constant (found / refuted), and it has no effect other than on values it made itself (the stack, the visited set). The
+// order in which such a search meets the elements cannot change its answer.
+func (d *dt1) orderFreeSearch(g *ssa.Function) bool {
+	c := d.c
+	res := g.Signature.Results()
+	if g.Blocks == nil || res.Len() != 1 || res.At(0).Type().Underlying().String() != "bool" {
+		return false
+	}
+	inLoop := map[bool]int{}
+	for _, r := range returnsOf(g) {
+		b, isC := constBool(returnedValue(r, 0))
+		if !isC {
+			return false
+		}
+		if inCycle(r.Block()) || enclosingLoopHeader(r.Block()) != nil {
+			inLoop[b]++
+		}
+	}
+	if len(inLoop) > 1 {
+		return false // both answers can be given from inside the loop: which element comes first can matter
+	}
+	ok := true
+	eachInstr(g, func(r instrRef) {
+		switch x := r.In.(type) {
+		case *ssa.Store:
+			if cellOf(x.Addr) == nil {
+				if ia, isIA := x.Addr.(*ssa.IndexAddr); isIA {
+					if _, local := strip(ia.X).(*ssa.Alloc); local {
+						return
+					}
+				}
+				ok = false
+			}
+		case *ssa.MapUpdate:
+			if _, local := resolve(x.Map).(*ssa.MakeMap); !local {
+				ok = false
+			}
+		case ssa.CallInstruction:
+			n := calleeFullName(x.Common())
+			if strings.HasPrefix(n, "builtin ") {
+				return
+			}
+			if cal := calleeOf(x.Common()); cal != nil && c.InModule(cal) && d.isPure(cal) {
+				return
+			}
+			ok = false
+		case *ssa.Go, *ssa.Defer, *ssa.Send:
+			ok = false
+		}
+	})
+	return ok
 }
